@@ -91,11 +91,42 @@ def config_flow(body):
     return IN, sites
 
 
+CF_RULE = "ironcalc_base::cf_types::CfRule"
+CF_FIELD = ("ironcalc_base::types::ConditionalFormatting", "cf_rule")
+# formulas inside conditional-format rules are stored in A1 style, English
+STORED_HELPER_TEXT = {CF_RULE: ("A1", "default", "default")}
+
+
+def lent_parser_sites(body, F, P, IN):
+    """Calls that lend the model's parser to a local helper which (transitively) calls Parser::parse, with another
+    argument of a type that carries stored formula text: [(block, term, states, carrier type)]"""
+    parse = set(F.find(PARSER + "::parse")) or {p for p in F.heads if p.endswith("expressions::parser::Parser::parse")}
+    out = []
+    for bi, t in body.calls():
+        c = body.callee(t)
+        if c not in F.heads or (body.callee_q(t) or "").startswith(PARSER + "::"):
+            continue
+        if not any(_is_model_parser(body, a) for a in t["args"]):
+            continue
+        if not P.reaches(c, parse):
+            continue
+        cb = F.body(c)
+        carrier = None
+        for i in range(1, cb.nargs + 1):
+            ty = cb.locals[i]
+            for k in STORED_HELPER_TEXT:
+                if ty.replace("&", "").strip().startswith(k):
+                    carrier = k
+        out.append((bi, t, IN.get(bi, set()), carrier))
+    return out
+
+
 def pcfg(ck, F, only=None):
     """PCFG: at every Parser::parse on the model's parser whose text comes from stored formula text the
     configuration is the one that text was printed in; every function restores (A1, active, active)."""
     R = "PCFG"
     n_sites = 0
+    P = Program(F)
     for path in sorted(F.body_paths()):
         cs = F.calls.get(path, [])
         if not any(c.startswith(PARSER) and c.rsplit("::", 1)[-1] in ("parse", "set_lexer_mode", "set_locale", "set_language") for c in cs):
@@ -130,6 +161,20 @@ def pcfg(ck, F, only=None):
                   "%s parses stored %s.%s text (written as %s) with the parser in configuration %s: in a non-English "
                   "language/locale the stored formula is misread and rewritten" % (name, fld[0].rsplit("::", 1)[-1], fld[1], "/".join(cfg), ["/".join(b) for b in bad]),
                   f, l, sample={"fn": name, "text": "%s.%s" % (fld[0].rsplit("::", 1)[-1], fld[1]), "required": "/".join(cfg), "states": ["/".join(s) for s in sorted(states)]})
+        # the parser lent to a helper that parses stored rule formulas
+        for bi, t, states, carrier in lent_parser_sites(body, F, P, IN):
+            n_sites += 1
+            f, l = body.loc(bi)
+            hq = (body.callee_q(t) or "?").rsplit("::", 1)[-1]
+            if carrier is None:
+                ck.ob(R, "%s|lends parser to %s|no stored text" % (name, hq), True, nontrivial=False)
+                continue
+            cfg = STORED_HELPER_TEXT[carrier]
+            bad = sorted(s for s in states if s != cfg)
+            ck.ob(R, "%s|%s parses %s formulas|config" % (name, hq, carrier.rsplit("::", 1)[-1]), not bad and bool(states),
+                  "%s lends the parser to %s, which parses formulas stored in %s (written as %s), in configuration %s: in a "
+                  "non-English language/locale the stored formula is misread and left unchanged" % (name, hq, carrier.rsplit("::", 1)[-1], "/".join(cfg), ["/".join(b) for b in bad]),
+                  f, l, sample={"fn": name, "helper": hq, "required": "/".join(cfg), "states": ["/".join(s) for s in sorted(states)]})
         # restored at every normal return
         for rb in body.return_blocks():
             st = IN.get(rb)
